@@ -42,6 +42,10 @@ func c09Obs(t *Ty, v *Val, prev *Val) string {
 				dst = newFlat(t)
 			} else {
 				dst = flatOf(t, prev)
+				// ... which has itself been decoded into before
+				if pe, err := flatEncode(dst); err == nil {
+					_ = flatDecode(dst, pe)
+				}
 			}
 			if err := flatDecode(dst, data); err == nil {
 				dec = strings.ReplaceAll(dst.Read(), " ", "_")
